@@ -34,6 +34,12 @@ func coqOp(o Op) string {
 			cs = append(cs, lib.Pair(lib.Z(c[0]), lib.Z(c[1])))
 		}
 		return fmt.Sprintf("BridgeCall %s %s %s %s %s %s", zi(o.Sender), zi(o.Refund), lib.List(cs), zi(o.To), bytesZ(o.Data), bytesZ(o.Memo))
+	case "BridgeCallP":
+		var cs []string
+		for _, c := range o.Coins {
+			cs = append(cs, lib.Pair(lib.Z(c[0]), lib.Z(c[1])))
+		}
+		return fmt.Sprintf("BridgeCallP %s %s %s %s %s %s %s", zi(o.Sender), zi(o.Refund), lib.Z(o.Amount), lib.List(cs), zi(o.To), bytesZ(o.Data), bytesZ(o.Memo))
 	case "ObserveResult":
 		return fmt.Sprintf("ObserveResult %s %s %s", lib.ZU(o.Nonce), lib.Bool(o.Success), lib.ZU(o.H))
 	case "ExecResult":
@@ -102,6 +108,8 @@ func coqCase(w *World, steps []string) string {
 			toks = append(toks, lib.Pair(zi(i), "KNative"))
 		case "ext":
 			toks = append(toks, lib.Pair(zi(i), "KExt"))
+		case "coin":
+			toks = append(toks, lib.Pair(zi(i), "KCoin"))
 		}
 	}
 	for _, k := range w.keys {
